@@ -190,3 +190,70 @@ def check_offset_sign(run, fx):
     run.analysed["offset_sign_sites"] = n
     if n < 3:
         run.anchor_missing(rule, "sites", "only %d offset sign products found (expected >= 3)" % n)
+
+
+def check_offset_minutes_by_value(run, fx):
+    """C11 / C13: offsets are rounded to whole minutes half-expand, by the formatter and by the matcher alike"""
+    from .common import fold, is_ok, is_err, err_kind
+    rule = "R1.offset-minute-rounding"
+    run.rule(rule, "nanoseconds_to_formattable_offset_minutes rounds to whole minutes half-expand (ties away from zero, both "
+                   "signs) and splits the result into sign / hours / minutes; interpret_isodatetime_offset, matching a "
+                   "minute-precision offset against a zone offset with seconds, accepts exactly the half-expand rounding of the "
+                   "zone offset. Both folded on values just below, at and just above a tie, for both signs")
+    rs = fx["temporal_rs"]
+    fmt = rs.fn(CORE + "zoneddatetime::nanoseconds_to_formattable_offset_minutes")
+    MIN = 60_000_000_000
+
+    def half_expand(ns):
+        q, r = divmod(abs(ns), MIN)
+        m = q + (1 if 2 * r >= MIN else 0)
+        return -m if ns < 0 else m
+    if fmt is None:
+        run.anchor_missing(rule, "formatter", "nanoseconds_to_formattable_offset_minutes not found")
+    else:
+        for ns in (0, 1, MIN // 2 - 1, MIN // 2, MIN // 2 + 1, MIN - 1, MIN, 90 * 10 ** 9, 3600 * 10 ** 9 + MIN // 2, 86_399 * 10 ** 9):
+            for v in ((ns, -ns) if ns else (0,)):
+                got = fold(H.Evaluator(fx), fmt, [v])
+                m = half_expand(v)
+                want = H.T((H.V("temporal_rs::Sign::" + ("Negative" if m < 0 else "Positive"), ()), abs(m) // 60, abs(m) % 60))
+                key = "formatter/%d" % v
+                if got[0] == "opaque":
+                    run.ok(rule, key, "does not fold: not decided", fmt.loc, nontrivial=False)
+                    continue
+                run.check(got == ("ok", want), rule, key, "%d ns -> %s" % (v, show(want)),
+                          "an offset of %d ns is formatted as %s; rounded half-expand to minutes it is %s" %
+                          (v, show(got[1])[:60] if got[0] != "err" else got, show(want)), fmt.loc)
+    mt = rs.fn(CORE + "zoneddatetime::interpret_isodatetime_offset")
+    if mt is None:
+        run.anchor_missing(rule, "matcher", "interpret_isodatetime_offset not found")
+        return
+    names = [p["name"] for p in mt.params]
+    E = "temporal_rs::epoch_nanoseconds::EpochNanoseconds"
+    date = H.S("temporal_rs::iso::IsoDate", (("year", 1970), ("month", 1), ("day", 2)))
+    time = H.S("temporal_rs::iso::IsoTime", tuple((n, 0) for n in ("hour", "minute", "second", "millisecond", "microsecond", "nanosecond")))
+    utc = 86_400 * 10 ** 9                # 1970-01-02T00:00 as a UTC reading
+    for zone_off in (MIN // 2 - 1, MIN // 2, MIN // 2 + 1, MIN + MIN // 2, -(MIN // 2 - 1), -(MIN // 2), -(MIN // 2 + 1), -(MIN + MIN // 2)):
+        cand = H.V(E, (utc - zone_off,))
+        for given_min in sorted({half_expand(zone_off), half_expand(zone_off) - 1, half_expand(zone_off) + 1, 0}):
+            ev = H.Evaluator(fx)
+            ev.stubs["get_possible_epoch_ns_for"] = lambda a, cand=cand: H.V(H.OK, (H.T((cand,)),))
+            args = {"date": date, "time": H.V(H.SOME, (time,)), "is_exact": False, "offset_nanos": H.V(H.SOME, (given_min * MIN,)),
+                    "timezone": H.Sym("param", ("timezone",)), "disambiguation": H.V("temporal_rs::options::Disambiguation::Compatible", ()),
+                    "offset_option": H.V("temporal_rs::options::OffsetDisambiguation::Reject", ()), "match_minutes": True,
+                    "provider": H.Sym("param", ("provider",))}
+            if set(names) != set(args):
+                run.ok(rule, "matcher", "the parameters of interpret_isodatetime_offset changed (%s): not decided" % names, mt.loc,
+                       nontrivial=False)
+                return
+            got = fold(ev, mt, [args[n] for n in names])
+            key = "matcher/zone%+d/given%+dmin" % (zone_off, given_min)
+            if got[0] == "opaque":
+                run.ok(rule, key, "does not fold: not decided", mt.loc, nontrivial=False)
+                continue
+            should = given_min == half_expand(zone_off)
+            ok = (got == ("ok", cand)) if should else (got == ("err", "Range"))
+            run.check(ok, rule, key, "zone offset %+d ns %s %+d min" % (zone_off, "matches" if should else "does not match", given_min),
+                      "a zone offset of %+d ns and a written offset of %+d min: the matcher gives %s; half-expand rounding of the zone "
+                      "offset is %+d min, so it must %s" % (zone_off, given_min, got[0] if got[0] != "ok" else "a match",
+                                                          half_expand(zone_off), "match" if should else "be rejected"), mt.loc)
+    run.exhaustive_tables.append("offset minute rounding (tie boundaries x sign, formatter and matcher)")
